@@ -212,6 +212,8 @@ var pcNameRe = regexp.MustCompile(`pc![0-9]+`)
 
 // pcAncestors: the set of named path conditions the given path condition is built from.
 func (e *Exec) pcAncestors(pc string) map[string]bool {
+	e.pcMu.Lock()
+	defer e.pcMu.Unlock()
 	if e.pcParents == nil {
 		e.pcParents = map[string][]string{}
 		for _, d := range e.smt.decls {
@@ -249,11 +251,13 @@ func (e *Exec) quickValid(st *State, cond Term, ms int) bool {
 		return false
 	}
 	o := &Obligation{Name: "quick", Kind: "quick", PC: st.pc, Goal: cond, NAssume: len(e.assumptions), NDecl: len(e.smt.decls)}
-	saved := e.pcParents
+	e.pcMu.Lock()
 	e.pcParents = nil // definitions grow during generation
+	e.pcMu.Unlock()
 	text := e.queryText(o, false)
-	e.pcParents = saved
+	e.pcMu.Lock()
 	e.pcParents = nil
+	e.pcMu.Unlock()
 	f, err := os.CreateTemp("", "govc-quick-*.smt2")
 	if err != nil {
 		return false
